@@ -81,6 +81,14 @@ Definition sortMap_over (deps : deps_t) : smres :=
   | VRet false s _ => SMOk s
   end.
 
+(* DetachCycles over the Go map: what the tie runs against verifx.DetachCycles *)
+Definition DetachCycles_over (deps : deps_t) (changes : list change) : dcres :=
+  match sortMap_over deps with
+  | SMOut => DCOut
+  | SMCycle => DCOk (detachReferences changes)
+  | SMOk sorted => DCOk (sort_by (sort_key sorted) changes)
+  end.
+
 (* CheckChangesScope, after the set [names] is built:
    if len(names) > 1 { ks := keys(names); sort.Strings(ks); return fmt.Errorf("... %q", ks) }
    Some ks = the error (its text lists ks), None = nil *)
